@@ -13,7 +13,7 @@
    serde_json's string escaping: the two-character forms for quote, backslash, \b \f \n \r \t,
    \u00XX (lower-case hex) for the other control characters, everything else verbatim.
    Strings are lists of code points. Definitions only; proofs are in C15/Proofs.v. *)
-From RM Require Export Base.Word.
+From RM Require Export Base.Word Gen.C15Enums.
 Open Scope Z_scope.
 
 Inductive json :=
@@ -254,10 +254,30 @@ Record frame := {
   fr_function_base : option Z;
   fr_file : option (list Z);
   fr_line : option Z;
-  fr_trust : list Z;                         (* FrameTrust::as_str() *)
+  fr_trust : Z;                              (* FrameTrust variant index; rendered by TRUST_NAMES *)
   fr_unloaded : list (list Z * list Z) }.    (* BTreeMap name -> BTreeSet offsets *)
 Record thread := { th_id : Z; th_name : option (list Z); th_frames : list frame }.
 Record modul := { m_base : Z; m_size : Z; m_name : list Z }.
+Record access := { a_addr : Z; a_size : option Z; a_guard : bool; a_type : Z }.   (* MemoryAccessType variant index *)
+Inductive adjusted := AdjNonCanonical (a : Z) | AdjNull (off : Z).
+Inductive ipupdate := IpuNone | IpuUpdate (addr : Z) (guard : bool).
+Record flip := { bf_addr : Z; bf_reg : option (list Z); bf_nc : bool; bf_null : bool; bf_low : bool;
+                 bf_nearby : Z; bf_poison : bool }.
+Record crash := {
+  cr_reason : list Z; cr_addr : Z;
+  cr_adjusted : option adjusted;
+  cr_instr : option (list Z);
+  cr_accesses : option (list access);
+  cr_ipu : option ipupdate;
+  cr_flips : list flip;
+  cr_incons : list Z }.                      (* CrashInconsistency variant indices *)
+Record sysinfo := {
+  sy_os : Z; sy_os_raw : Z;                  (* Os variant index (8 = Unknown(raw)) *)
+  sy_os_ver : option (list Z);
+  sy_cpu : Z;                                (* Cpu variant index *)
+  sy_cpu_info : option (list Z);
+  sy_cpu_count : Z;
+  sy_microcode : option Z }.
 Record state := {
   s_width : pwidth;
   s_pid : option Z;
@@ -267,7 +287,22 @@ Record state := {
                                                 thread's frame 0: name, value, hex digits *)
   s_modules : list modul;
   s_unloaded : list modul;
-  s_crash : option (list Z * Z) }.           (* reason string, address *)
+  s_crash : option crash;
+  s_sys : sysinfo;
+  s_lsb : option (list Z * list Z * list Z * list Z);   (* id, release, codename, description *)
+  s_mapcount : option Z;
+  s_cert : bool }.
+
+(* names of enumeration-valued members; the tables are regenerated from the source on every run *)
+Definition nth_name (tbl : list (list Z)) (i : Z) : list Z := nth (Z.to_nat i) tbl [].
+Definition trust_name (i : Z) : list Z := nth_name TRUST_NAMES i.
+Definition access_name (i : Z) : list Z := nth_name ACCESS_NAMES i.
+Definition inconsistency_name (i : Z) : list Z := nth_name INCONSISTENCY_NAMES i.
+Definition cpu_name (i : Z) : list Z := nth_name CPU_NAMES i.
+(* Os::long_name; Unknown(val) is format!("0x{val:#08x}"): a literal "0x" followed by "0x" and at least 6 digits *)
+Definition os_name (i raw : Z) : list Z :=
+  if i =? 8 then 48 :: 120 :: 48 :: 120 :: (if raw <? 16777216 then hex_fixed 6 raw else strip0 (hex_fixed 8 raw))
+  else nth_name OS_NAMES i.
 
 Definition K (s : list Z) := s.
 (* key names as code points *)
@@ -300,6 +335,44 @@ Definition k_threads_index := [116;104;114;101;97;100;115;95;105;110;100;101;120
 Definition k_trust := [116;114;117;115;116].
 Definition k_type := [116;121;112;101].
 Definition k_unloaded_modules := [117;110;108;111;97;100;101;100;95;109;111;100;117;108;101;115].
+
+Definition k_access_type := [97;99;99;101;115;115;95;116;121;112;101].
+Definition k_adjusted_address := [97;100;106;117;115;116;101;100;95;97;100;100;114;101;115;115].
+Definition k_assertion := [97;115;115;101;114;116;105;111;110].
+Definition k_codename := [99;111;100;101;110;97;109;101].
+Definition k_cpu_arch := [99;112;117;95;97;114;99;104].
+Definition k_cpu_count := [99;112;117;95;99;111;117;110;116].
+Definition k_cpu_info := [99;112;117;95;105;110;102;111].
+Definition k_cpu_microcode_version := [99;112;117;95;109;105;99;114;111;99;111;100;101;95;118;101;114;115;105;111;110].
+Definition k_crash_inconsistencies := [99;114;97;115;104;95;105;110;99;111;110;115;105;115;116;101;110;99;105;101;115].
+Definition k_description := [100;101;115;99;114;105;112;116;105;111;110].
+Definition k_details := [100;101;116;97;105;108;115].
+Definition k_id := [105;100].
+Definition k_instruction := [105;110;115;116;114;117;99;116;105;111;110].
+Definition k_instruction_pointer_update := [105;110;115;116;114;117;99;116;105;111;110;95;112;111;105;110;116;101;114;95;117;112;100;97;116;101].
+Definition k_is_likely_guard_page := [105;115;95;108;105;107;101;108;121;95;103;117;97;114;100;95;112;97;103;101].
+Definition k_is_null := [105;115;95;110;117;108;108].
+Definition k_kind := [107;105;110;100].
+Definition k_linux_memory_map_count := [108;105;110;117;120;95;109;101;109;111;114;121;95;109;97;112;95;99;111;117;110;116].
+Definition k_lsb_release := [108;115;98;95;114;101;108;101;97;115;101].
+Definition k_main_module := [109;97;105;110;95;109;111;100;117;108;101].
+Definition k_memory_accesses := [109;101;109;111;114;121;95;97;99;99;101;115;115;101;115].
+Definition k_modules_contains_cert_info := [109;111;100;117;108;101;115;95;99;111;110;116;97;105;110;115;95;99;101;114;116;95;105;110;102;111].
+Definition k_nearby_registers := [110;101;97;114;98;121;95;114;101;103;105;115;116;101;114;115].
+Definition k_os := [111;115].
+Definition k_os_ver := [111;115;95;118;101;114].
+Definition k_poison_registers := [112;111;105;115;111;110;95;114;101;103;105;115;116;101;114;115].
+Definition k_possible_bit_flips := [112;111;115;115;105;98;108;101;95;98;105;116;95;102;108;105;112;115].
+Definition k_release := [114;101;108;101;97;115;101].
+Definition k_size := [115;105;122;101].
+Definition k_source_register := [115;111;117;114;99;101;95;114;101;103;105;115;116;101;114].
+Definition k_status := [115;116;97;116;117;115].
+Definition k_system_info := [115;121;115;116;101;109;95;105;110;102;111].
+Definition k_was_low := [119;97;115;95;108;111;119].
+Definition k_was_non_canonical := [119;97;115;95;110;111;110;95;99;97;110;111;110;105;99;97;108].
+Definition s_non_canonical := [110;111;110;45;99;97;110;111;110;105;99;97;108].
+Definition s_null_pointer := [110;117;108;108;45;112;111;105;110;116;101;114].
+Definition s_OK := [79;75].
 
 Definition PANIC_MODULE_OFFSET : Z := 1501.
 Definition PANIC_FUNCTION_OFFSET : Z := 1502.
@@ -334,7 +407,7 @@ Definition json_of_frame (p : profile) (w : pwidth) (idx : nat) (f : frame) : ou
     (k_module, jopt (fun m => JStr (fst m)) (fr_module f));
     (k_module_offset, moff);
     (k_offset, jhex w (fr_instr f));
-    (k_trust, JStr (fr_trust f));
+    (k_trust, JStr (trust_name (fr_trust f)));
     (k_unloaded_modules,
        match fr_unloaded f with
        | [] => JNull
@@ -379,18 +452,71 @@ Definition crashing_copy (regs : json) (i : nat) (th : json) : json :=
 
 Definition PANIC_THREAD_INDEX : Z := 1504.
 
+Definition json_of_access (w : pwidth) (a : access) : json :=
+  JObj ((if a_type a <? 3 then [(k_access_type, JStr (access_name (a_type a)))] else []) ++
+        [(k_address, jhex w (a_addr a))] ++
+        (if a_guard a then [(k_is_likely_guard_page, JBool true)] else []) ++
+        [(k_size, jopt JNum (a_size a))]).
+Definition json_of_flip (w : pwidth) (b : flip) : json :=
+  JObj [(k_address, jhex w (bf_addr b));
+        (k_details, JObj [(k_is_null, JBool (bf_null b)); (k_nearby_registers, JNum (bf_nearby b));
+                          (k_poison_registers, JBool (bf_poison b)); (k_was_low, JBool (bf_low b));
+                          (k_was_non_canonical, JBool (bf_nc b))]);
+        (k_source_register, jopt JStr (bf_reg b))].
+Definition json_of_crash (w : pwidth) (c : option crash) (req : option nat) : json :=
+  JObj [
+    (k_address, jopt (fun c => jhex w (cr_addr c)) c);
+    (k_adjusted_address,
+       match c with
+       | Some c => match cr_adjusted c with
+                   | Some (AdjNonCanonical a) => JObj [(k_address, jhex w a); (k_kind, JStr s_non_canonical)]
+                   | Some (AdjNull o) => JObj [(k_kind, JStr s_null_pointer); (k_offset, jhex w o)]
+                   | None => JNull end
+       | None => JNull end);
+    (k_assertion, JNull);
+    (k_crash_inconsistencies, jopt (fun c => JArr (map (fun i => JStr (inconsistency_name i)) (cr_incons c))) c);
+    (k_crashing_thread, jopt (fun i => JNum (Z.of_nat i)) req);
+    (k_instruction, match c with Some c => jopt JStr (cr_instr c) | None => JNull end);
+    (k_instruction_pointer_update,
+       match c with
+       | Some c => match cr_ipu c with
+                   | Some (IpuUpdate a g) =>
+                       JObj ((k_address, jhex w a) :: (if g then [(k_is_likely_guard_page, JBool true)] else []))
+                   | _ => JNull end
+       | None => JNull end);
+    (k_memory_accesses,
+       match c with
+       | Some c => jopt (fun l => JArr (map (json_of_access w) l)) (cr_accesses c)
+       | None => JNull end);
+    (k_possible_bit_flips,
+       match c with
+       | Some c => match cr_flips c with [] => JNull | l => JArr (map (json_of_flip w) l) end
+       | None => JNull end);
+    (k_type, jopt (fun c => JStr (cr_reason c)) c)].
+Definition json_of_sys (y : sysinfo) : json :=
+  JObj [(k_cpu_arch, JStr (cpu_name (sy_cpu y)));
+        (k_cpu_count, JNum (sy_cpu_count y));
+        (k_cpu_info, jopt JStr (sy_cpu_info y));
+        (k_cpu_microcode_version, jopt (fun n => JStr (48 :: 120 :: strip0 (hex_fixed 16 n))) (sy_microcode y));
+        (k_os, JStr (os_name (sy_os y) (sy_os_raw y)));
+        (k_os_ver, jopt JStr (sy_os_ver y))].
+
 Definition json_of_state (p : profile) (s : state) : outcome json :=
   let w := s_width s in
   do threads <- omap (json_of_thread p w) (s_threads s);
   do mods <- omap (json_of_module p w) (s_modules s);
   do unl <- omap (json_of_module p w) (s_unloaded s);
-  let crash_info := JObj [
-    (k_address, jopt (fun c => jhex w (snd c)) (s_crash s));
-    (k_crashing_thread, jopt (fun i => JNum (Z.of_nat i)) (s_requesting s));
-    (k_type, jopt (fun c => JStr (fst c)) (s_crash s))] in
+  let crash_info := json_of_crash w (s_crash s) (s_requesting s) in
   let tail := [
+    (k_linux_memory_map_count, jopt JNum (s_mapcount s));
+    (k_lsb_release, jopt (fun l => let '(i, r, c, d) := l in
+                                   JObj [(k_codename, JStr c); (k_description, JStr d); (k_id, JStr i); (k_release, JStr r)]) (s_lsb s));
+    (k_main_module, JNum 0);
     (k_modules, JArr mods);
+    (k_modules_contains_cert_info, JBool (s_cert s));
     (k_pid, jopt JNum (s_pid s));
+    (k_status, JStr s_OK);
+    (k_system_info, json_of_sys (s_sys s));
     (k_thread_count, JNum (Z.of_nat (length (s_threads s))));
     (k_threads, JArr threads);
     (k_unloaded_modules, JArr unl)] in
